@@ -772,6 +772,9 @@ func (s *levelsController) subcompact(it y.Iterator, kr keyRange, cd compactDef,
 				if y.SameKey(it.Key(), skipKey) {
 					numSkips++
 					updateStats(it.Value())
+					if vhook.On {
+						verifCompactEntry(it.Key(), it.Value(), false)
+					}
 					continue
 				} else {
 					skipKey = skipKey[:0]
@@ -852,12 +855,16 @@ func (s *levelsController) subcompact(it y.Iterator, kr keyRange, cd compactDef,
 						updateStats(vs)
 						if vhook.On {
 							vhook.EventKV("compact.dropMarker", y.ParseKey(it.Key()), nil, version, uint64(vs.Meta))
+							verifCompactEntry(it.Key(), vs, false)
 						}
 						continue // Skip adding this key.
 					}
 				}
 			}
 			numKeys++
+			if vhook.On {
+				verifCompactEntry(it.Key(), vs, true)
+			}
 			var vp valuePointer
 			if vs.Meta&bitValuePointer > 0 {
 				vp.Decode(vs.Value)
@@ -1869,4 +1876,24 @@ func (s *levelsController) keySplits(numPerTable int, prefix []byte) []string {
 	}
 	sort.Strings(splits)
 	return splits
+}
+
+// verifCompactEntry reports to the simulator what a compaction did with one version it
+// iterated over (kept or dropped), with the facts its retention rule looks at.
+// b: bit0 kept, bit1 deleted-or-expired, bit2 discard-earlier-versions, bit3 merge entry.
+func verifCompactEntry(key []byte, vs y.ValueStruct, kept bool) {
+	var b uint64
+	if kept {
+		b |= 1
+	}
+	if isDeletedOrExpired(vs.Meta, vs.ExpiresAt) {
+		b |= 2
+	}
+	if vs.Meta&bitDiscardEarlierVersions > 0 {
+		b |= 4
+	}
+	if vs.Meta&bitMergeEntry > 0 {
+		b |= 8
+	}
+	vhook.EventKV("compact.entry", y.ParseKey(key), nil, y.ParseTs(key), b)
 }
